@@ -376,6 +376,10 @@ Fixpoint parse_postings (fuel : nat) (ps : pstate) (acc : list posting) : option
 
 Definition sep_note : list N := [32; 124; 32]%N.
 
+(* textRange: the range of a text that starts at a token position and stays on its line *)
+Definition text_range (p : tpos) (text : list N) : rng :=
+  mkRng (zpos p) (mkPos (Z.of_N (tp_line p)) (Z.of_N (tp_col p) + Z.of_N (u16n text)) (Z.of_N (tp_off p) + Z.of_nat (length text))).
+
 Definition parse_transaction (fuel : nat) (ps : pstate) : option (option transaction * pstate) :=
   let start := zpos (tk_pos (cur ps)) in
   match parse_date ps with
@@ -385,24 +389,25 @@ Definition parse_transaction (fuel : nat) (ps : pstate) : option (option transac
         if is_ty (ctype ps) TEquals then parse_date (adv ps) else (None, ps) in
       let '(st, ps) := if is_ty (ctype ps) TStatus then parse_status ps else (StNone, ps) in
       let '(code, ps) := if is_ty (ctype ps) TCode then (tk_val (cur ps), adv ps) else ([], ps) in
-      let '(desc, payee, note, ps) :=
+      let '(desc, payee, note, prng, ps) :=
         if is_ty (ctype ps) TText then
           let d0 := tk_val (cur ps) in
+          let prng := text_range (tk_pos (cur ps)) d0 in
           let ps := adv ps in
           if is_ty (ctype ps) TPipe then
             let payee := trim_space_u d0 in
             let ps := adv ps in
             let '(note, ps) := if is_ty (ctype ps) TText then (trim_space_u (tk_val (cur ps)), adv ps) else ([], ps) in
-            ((match note with [] => payee | _ => payee ++ sep_note ++ note end), payee, note, ps)
-          else (d0, [], [], ps)
-        else ([], [], [], ps) in
+            ((match note with [] => payee | _ => payee ++ sep_note ++ note end), payee, note, prng, ps)
+          else (d0, [], [], prng, ps)
+        else ([], [], [], rng0, ps) in
       let '(cmts, ps) :=
         if is_ty (ctype ps) TComment then let '(c, ps) := parse_comment ps in ([c], ps) else ([], ps) in
       let ps := if is_ty (ctype ps) TNewline then adv ps else ps in
       match parse_postings fuel ps [] with
       | None => None
       | Some (posts, ps) =>
-          Some (Some (mkTx d d2 st code desc payee note posts [] cmts (mkRng start (zpos (tk_pos (cur ps))))), ps)
+          Some (Some (mkTx d d2 st code desc payee note prng posts [] cmts (mkRng start (zpos (tk_pos (cur ps))))), ps)
       end
   end.
 
